@@ -7,11 +7,11 @@ from ._drv import Flags, ppos
 ALL_SPLIT = ('Fact', 'Trans', 'Equil', 'ColPerm', 'IterRefine', 'PivotGrowth', 'ConditionNumber', 'RowPerm', 'A.Stype', 'B.ncol', 'equed', 'lwork', 'info')
 
 
-def flags_for(prog, f, p, ilu=False, tier='quick', split=ALL_SPLIT, lwork_values=None):
+def flags_for(prog, f, p, ilu=False, tier='quick', split=ALL_SPLIT, lwork_values=None, fact_values=None):
     E = prog.enums
     fl = Flags(prog, f, p)
     # flags not in `split` stay undeclared: branches on them are explored both ways (their events are alternatives)
-    fl.enum('Fact', '$1->Fact', ['DOFACT', 'SamePattern', 'SamePattern_SameRowPerm', 'FACTORED'])
+    fl.enum('Fact', '$1->Fact', list(fact_values) if fact_values else ['DOFACT', 'SamePattern', 'SamePattern_SameRowPerm', 'FACTORED'])
     fl.enum('Trans', '$1->Trans', ['NOTRANS', 'TRANS', 'CONJ'])
     fl.enum('Equil', '$1->Equil', ['NO', 'YES'])
     if 'ColPerm' in split:
@@ -43,12 +43,12 @@ def flags_for(prog, f, p, ilu=False, tier='quick', split=ALL_SPLIT, lwork_values
     return fl
 
 
-def leaves_for(prog, eff, p, ilu=False, tier='quick', split=ALL_SPLIT, lwork_values=None):
+def leaves_for(prog, eff, p, ilu=False, tier='quick', split=ALL_SPLIT, lwork_values=None, fact_values=None):
     name = p + ('gsisx' if ilu else 'gssvx')
     f = prog.func(name)
     if f is None:
         return None, None, None
-    fl = flags_for(prog, f, p, ilu, tier, split, lwork_values)
+    fl = flags_for(prog, f, p, ilu, tier, split, lwork_values, fact_values)
     fac = p + ('gsitrf' if ilu else 'gstrf')
     kequed = ppos(f, 'equed')
 
